@@ -6,6 +6,9 @@
     hybrid_new (symbolic branch): a foreign object is returned, `type.__call__` skips `__init__`,
         nothing is registered                                                 ↦ Op.symbolic
     an inferred variable instantiating its type during evaluation (mode off)  ↦ Op.concrete
+    a rule whose body ranges, without a domain, over a class `t` and whose head creates instances
+      of `c` (`c = t` without subclasses, or `c` outside `t`'s subtree): one Op.concrete c per
+      instance of `t` registered when the evaluation starts (expanded by the driver: `infself`)
     Variable._cache_ cleared                                                  ↦ Op.clear
     let(T) without a domain, evaluated at once:
       get_cache_keys_for_class_ (classes in first-registration order, `issubclass`),
